@@ -122,7 +122,8 @@ type muxWorld struct {
 	wireErr   string
 	sendFail  map[string]map[int]bool // streams on which the model has a failed send (a number may be skipped)
 	gateOn    bool
-	gateCh    map[string]chan struct{}
+	gateCh    map[string]chan struct{} // one channel per schedule point; per (point, stream id) for sesh.recv.published
+	gateMu    sync.Mutex
 	openCall  *muxCall
 	addCall   *muxCall
 	timerQ    []time.Time
@@ -141,9 +142,20 @@ const muxIdle = 30 * time.Second
 var muxGatePoints = []string{"sesh.open.checked", "sesh.open.registered", "sesh.recv.published", "sesh.timeout.decided", "sb.addConn.counted"}
 
 // release lets the goroutine parked at a schedule point continue; false if nobody is parked there
-func (w *muxWorld) release(point string) bool {
+func (w *muxWorld) gate(key string) chan struct{} {
+	w.gateMu.Lock()
+	defer w.gateMu.Unlock()
+	ch, ok := w.gateCh[key]
+	if !ok {
+		ch = make(chan struct{})
+		w.gateCh[key] = ch
+	}
+	return ch
+}
+
+func (w *muxWorld) release(key string) bool {
 	select {
-	case w.gateCh[point] <- struct{}{}:
+	case w.gate(key) <- struct{}{}:
 		return true
 	default:
 		return false
@@ -245,17 +257,21 @@ func muxNewWorld(conc muxConc) (*muxWorld, error) {
 	w.closedOK = map[string]map[int]bool{"c": {}, "s": {}}
 	w.closeAny = map[string]map[int]bool{"c": {}, "s": {}}
 	w.gateCh = map[string]chan struct{}{}
-	for _, p := range muxGatePoints {
-		w.gateCh[p] = make(chan struct{})
-	}
 	w.gateOn = conc.Gates
+	gated := map[string]bool{}
+	for _, p := range muxGatePoints {
+		gated[p] = true
+	}
 	verifhook.Set(func(point string, args ...uint64) {
-		if !w.gateOn {
+		if !w.gateOn || !gated[point] {
 			return
 		}
-		if ch, ok := w.gateCh[point]; ok {
-			<-ch
+		key := point
+		if point == "sesh.recv.published" && len(args) > 0 {
+			// several deplex goroutines can be parked here at once, one per new stream: the stream id tells them apart
+			key = fmt.Sprintf("%s:%d", point, args[0])
 		}
+		<-w.gate(key)
 	})
 	verifhook.SetPick(func(n uint32) (uint32, bool) {
 		w.pickMu.Lock()
@@ -283,12 +299,25 @@ func muxNewWorld(conc muxConc) (*muxWorld, error) {
 	return w, nil
 }
 
-func (w *muxWorld) shutdown() {
+func (w *muxWorld) releaseAllGates() {
 	w.gateOn = false
-	for _, p := range muxGatePoints {
-		for w.release(p) {
+	for round := 0; round < 4; round++ {
+		w.gateMu.Lock()
+		keys := make([]string, 0, len(w.gateCh))
+		for k := range w.gateCh {
+			keys = append(keys, k)
 		}
+		w.gateMu.Unlock()
+		for _, k := range keys {
+			for w.release(k) {
+			}
+		}
+		synctest.Wait()
 	}
+}
+
+func (w *muxWorld) shutdown() {
+	w.releaseAllGates()
 	verifhook.Set(nil)
 	verifhook.SetPick(nil)
 	for _, l := range w.links {
@@ -365,19 +394,42 @@ func (w *muxWorld) unitBytes(writer string, s int, units []int) []byte {
 	return out
 }
 
-// collect reads what is readable right now on e's stream s, up to want bytes (virtual 1 ms patience)
+// collect reads what is readable right now on a stream, up to want bytes, without letting virtual time pass: a Read is
+// started, the bubble is brought to quiescence, and a Read that is still parked is called off through the read deadline
+// (ErrTimeout). Must be called from the harness goroutine, not from inside another async call.
 func (w *muxWorld) collect(st *Stream, have []byte, want int) ([]byte, error) {
-	buf := make([]byte, 1<<18)
 	for len(have) < want {
-		st.SetReadDeadline(time.Now().Add(time.Millisecond))
-		n, err := st.Read(buf)
-		have = append(have, buf[:n]...)
-		if err != nil {
+		type rr struct {
+			n   int
+			err error
+			buf []byte
+		}
+		ch := make(chan rr, 1)
+		st.SetReadDeadline(time.Time{})
+		go func() {
+			buf := make([]byte, 1<<18)
+			n, err := st.Read(buf)
+			ch <- rr{n, err, buf}
+		}()
+		synctest.Wait()
+		select {
+		case r := <-ch:
+			have = append(have, r.buf[:r.n]...)
+			if r.err != nil {
+				return have, r.err
+			}
+		default:
+			st.SetReadDeadline(time.Now().Add(-time.Second)) // nothing there: call the parked Read off
+			synctest.Wait()
+			r := <-ch
 			st.SetReadDeadline(time.Time{})
-			return have, err
+			have = append(have, r.buf[:r.n]...)
+			if r.err == nil && r.n > 0 {
+				continue
+			}
+			return have, ErrTimeout
 		}
 	}
-	st.SetReadDeadline(time.Time{})
 	return have, nil
 }
 
@@ -418,11 +470,24 @@ func muxRun(b *muxBehaviour, conc muxConc) (v muxVerdict, table []string, diverg
 				fired = 1
 				now = time.Now()
 			}
+			armed := false
 			for k := steps[i].Obs.Timers[conc.TimerEp] - (w.prevTimer - fired); k > 0; k-- {
 				w.timerQ = append(w.timerQ, now.Add(muxIdle))
+				armed = true
 			}
 			w.prevTimer = steps[i].Obs.Timers[conc.TimerEp]
-			time.Sleep(time.Millisecond) // keeps the instants of different steps apart
+			if armed {
+				// Only arming moves the virtual clock (all other steps take no time): one second, so that every armed
+				// check has its own instant and none fires before the behaviour says so.
+				d := time.Second
+				if len(w.timerQ) > 1 && time.Until(w.timerQ[0]) < 2*d {
+					d = time.Until(w.timerQ[0]) / 2
+				}
+				if d > 0 {
+					time.Sleep(d)
+					synctest.Wait()
+				}
+			}
 		}
 		// compare the observation when the group (environment step + its internal continuations) is over
 		// internal continuations have priority in MuxGen, so the state before the next environment step is quiescent
@@ -447,16 +512,10 @@ func muxRun(b *muxBehaviour, conc muxConc) (v muxVerdict, table []string, diverg
 // everything in flight, then every stream must yield a prefix of what the peer wrote on it - all of it if nothing
 // abnormal happened - and, where the peer closed the stream successfully, the broken-stream error afterwards.
 func (w *muxWorld) judgeAfterDivergence() muxVerdict {
-	w.gateOn = false
-	for _, p := range muxGatePoints {
-		for w.release(p) {
-		}
-	}
+	w.releaseAllGates()
 	for _, l := range w.links {
 		l.ReleaseAll()
 	}
-	synctest.Wait()
-	time.Sleep(time.Millisecond)
 	synctest.Wait()
 	// hand every queued stream to the application
 	for n := len(w.sesh["s"].acceptCh); n > 0 && !w.sesh["s"].IsClosed(); n-- {
@@ -482,14 +541,7 @@ func (w *muxWorld) judgeAfterDivergence() muxVerdict {
 			want := w.unitBytes(peer, sid, units)
 			var data []byte
 			var err error
-			call := w.async("judge", func(c *muxCall) { c.data, c.err = w.collect(st, nil, len(want)+1) })
-			synctest.Wait()
-			time.Sleep(3 * time.Millisecond)
-			synctest.Wait()
-			if !call.finished() {
-				continue
-			}
-			data, err = call.data, call.err
+			data, err = w.collect(st, nil, len(want)+1)
 			w.logf("judge %s/%d: %d bytes readable (err=%v), peer wrote %d more bytes", e, sid, len(data), err, len(want))
 			if len(data) > len(want) || !bytes.Equal(data, want[:len(data)]) {
 				return muxVerdict{"bytes-wrong", fmt.Sprintf("after delivering everything in flight, %s reads %d bytes on stream %d that are not a prefix of what the peer wrote", e, len(data), sid)}
@@ -643,8 +695,8 @@ func (w *muxWorld) step(steps []muxStep, i int) muxVerdict {
 		}
 		return w.doOpen(i, ev) // refused at the check
 	case "DeliverB":
-		if !w.release("sesh.recv.published") {
-			w.diverged = fmt.Sprintf("step %d: nobody parked at sesh.recv.published", i)
+		if !w.release(fmt.Sprintf("sesh.recv.published:%d", ev.S)) {
+			w.diverged = fmt.Sprintf("step %d: nobody parked at sesh.recv.published for stream %d", i, ev.S)
 			return muxVerdict{}
 		}
 		synctest.Wait()
@@ -911,24 +963,11 @@ func (w *muxWorld) doRead(i int, ev muxEv) muxVerdict {
 	want := len(w.unitBytes(muxPeer(ev.E), ev.S, ev.Got))
 	var data []byte
 	var err error
-	call := w.async("read", func(c *muxCall) {
-		if ev.Eof {
-			buf := make([]byte, 1<<18)
-			st.SetReadDeadline(time.Now().Add(time.Millisecond))
-			c.n, c.err = st.Read(buf)
-			st.SetReadDeadline(time.Time{})
-			c.data = buf[:c.n]
-			return
-		}
-		c.data, c.err = w.collect(st, nil, want)
-	})
-	synctest.Wait()
-	time.Sleep(2 * time.Millisecond)
-	synctest.Wait()
-	if !call.finished() {
-		return muxVerdict{"read-blocked", fmt.Sprintf("step %d: Read on %s/%d blocks although data or end-of-stream is owed", i, ev.E, ev.S)}
+	if ev.Eof {
+		data, err = w.collect(st, nil, 1)
+	} else {
+		data, err = w.collect(st, nil, want)
 	}
-	data, err = call.data, call.err
 	w.logf("step %d Read(%s,%d) expected units %v eof=%v observed %d bytes err=%v", i, ev.E, ev.S, ev.Got, ev.Eof, len(data), err)
 	if errors.Is(err, ErrTimeout) && len(data) < want {
 		return muxVerdict{"bytes-missing", fmt.Sprintf("step %d: %s/%d has only %d of the %d bytes owed (units %v)", i, ev.E, ev.S, len(data), want, ev.Got)}
@@ -970,14 +1009,7 @@ func (w *muxWorld) internalStep(steps []muxStep, i int) muxVerdict {
 		want := len(w.unitBytes(muxPeer(ev.E), ev.S, ev.Got))
 		if err == nil && len(data) < want {
 			// the reader may wake after the first of several drained frames: pick up the rest
-			c2 := w.async("collect", func(c *muxCall) { c.data, c.err = w.collect(w.strm[ev.E][ev.S], data, want) })
-			synctest.Wait()
-			time.Sleep(2 * time.Millisecond)
-			synctest.Wait()
-			if !c2.finished() {
-				return muxVerdict{"read-blocked", fmt.Sprintf("step %d: remaining bytes on %s/%d not readable", i, ev.E, ev.S)}
-			}
-			data, err = c2.data, c2.err
+			data, err = w.collect(w.strm[ev.E][ev.S], data, want)
 			if errors.Is(err, ErrTimeout) {
 				return muxVerdict{"bytes-missing", fmt.Sprintf("step %d: %s/%d has only %d of the %d bytes owed", i, ev.E, ev.S, len(data), want)}
 			}
